@@ -428,9 +428,10 @@ def run(rep: Report, tier: str):
         raise AnalysisError("Analyzer.analyze not found")
     self_attrs = {n.attr for n in body_walk(an.node) if isinstance(n, ast.Attribute) and isinstance(n.value, ast.Name) and n.value.id == "self"}
     rets = [n.value for n in body_walk(an.node) if isinstance(n, ast.Return)]
-    fresh_ctx = any(isinstance(n, ast.Assign) and isinstance(n.value, ast.Call) and dotted(n.value.func) == "AnalysisContext" for n in body_walk(an.node))
+    ctx_names = {t.id for n in body_walk(an.node) if isinstance(n, ast.Assign) and isinstance(n.value, ast.Call) and dotted(n.value.func) == "AnalysisContext" for t in n.targets if isinstance(t, ast.Name)}
+    fresh_ctx = bool(ctx_names)
     decorated = [dotted(d) or (dotted(d.func) if isinstance(d, ast.Call) else "") for d in an.node.decorator_list]
-    if fresh_ctx and self_attrs <= {"analyses"} and len(rets) == 1 and src(rets[0]) == "context.results" and not decorated:
+    if fresh_ctx and self_attrs <= {"analyses"} and len(rets) == 1 and isinstance(rets[0], ast.Attribute) and rets[0].attr == "results" and isinstance(rets[0].value, ast.Name) and rets[0].value.id in ctx_names and not decorated:
         rep.ok("C14.views", an.qualname, "verdict computed in a fresh AnalysisContext from the current object; no stored results consulted", f"{an.file}:{an.line}")
     else:
         rep.bad("C14.views", an.qualname, "verdict-cached", f"Analyzer.analyze may answer from state kept between calls (self attributes used: {sorted(self_attrs)}, returns {[src(r) for r in rets]}, decorators {decorated}): after an edit of the opcode list the safety verdict can be the pre-edit one", an.file, an.line)
